@@ -16,8 +16,14 @@ POWER = False
 
 
 def models(tier, seed):
-    return [dict(module='MC_C02.tla', cfg=f'MC_C02_{tier}.cfg', batch=100),
-            dict(module='MC_C02.tla', cfg='MC_C02_high.cfg', batch=100)]     # sources at 1000 rad/s probed just inside / outside the (absolute) resolution
+    ms = [dict(module='MC_C02.tla', cfg='MC_C02_quick.cfg', batch=100),
+          dict(module='MC_C02.tla', cfg='MC_C02_high.cfg', batch=100)]     # sources at 1000 rad/s probed just inside / outside the (absolute) resolution
+    if tier == 'thorough':
+        # random walks over the full component alphabet, all frequencies and ground placements (exhaustive enumeration of that model leaves exact
+        # 32-bit arithmetic; a walk that does so ends and is restarted with a fresh seed)
+        ms += [dict(module='MC_C02.tla', cfg='MC_C02_thorough.cfg', simulate='num=100000000', depth=4, seed=seed, max_cases=60000, shards=12, batch=50),
+               dict(module='MC_C02.tla', cfg='MC_C02_sim.cfg', simulate='num=100000000', depth=5, seed=seed + 1, max_cases=30000, shards=12, batch=50)]
+    return ms
 
 
 def required_tags(tier):
